@@ -733,6 +733,34 @@ func hostile(r *ev.Run, srv *dohmem.Server) {
 		r.Eval("owner-label-with-dot", "hostile -> not used")
 		srv.Zone = z.answer
 	}
+	// a URI names its host; what follows the authority (a path, a query of any length - Transport hands the whole request URL over)
+	// does not take part: Resolve(uri + long tail) = Resolve(uri) for tails of 1..70000 octets
+	{
+		srv.Zone = func(name string, t uint16) dohmem.Answer {
+			if name == "uri.example" && t == 1 {
+				return dohmem.Answer{Records: []dnsref.RR{{Name: name, Type: 1, Class: 1, TTL: 60, Fields: []dnsref.Field{{Raw: ipX4}}}}}
+			}
+			return dohmem.Answer{}
+		}
+		res, _ := ech.NewResolver("https://doh.test/dns-query")
+		base, berr := res.Resolve(context.Background(), "https://uri.example/")
+		if berr != nil || len(base.Address) != 1 {
+			ev.ToolError("c14: the URI base case does not resolve: %v %s", berr, resultKey(base))
+		}
+		for _, n := range []int{1, 200, 470, 490, 500, 511, 512, 513, 600, 1000, 4096, 70000} {
+			for _, tail := range []string{"/" + strings.Repeat("p", n), "/?q=" + strings.Repeat("v", n), "/a/b?x=1#" + strings.Repeat("f", n)} {
+				res2, _ := ech.NewResolver("https://doh.test/dns-query")
+				got, err := res2.Resolve(context.Background(), "https://uri.example"+tail)
+				oc := "uri with long tail -> like the bare uri"
+				if err != nil || resultKey(got) != resultKey(base) {
+					oc = "uri with long tail -> differs"
+					r.Violation("uri-tail-matters", fmt.Sprintf("Resolve(\"https://uri.example\" + a %d-octet path/query) = %s, %v; the same URI with the path \"/\" gives %s", len(tail), resultKey(got), err, resultKey(base)), len(tail))
+				}
+				r.Eval(fmt.Sprintf("uri-tail:%d:%c", n, tail[1]), oc)
+			}
+		}
+		srv.Zone = z.answer
+	}
 	label := func(n int) string { return strings.Repeat("l", n) }
 	// names that only the SERVER supplies (alias and service targets, the in-answer CNAME target) and that no DNS name can be:
 	// a "label" whose length octet is 64..191 (reserved label types), a name longer than 255 octets. Whatever Resolve does with
@@ -938,6 +966,64 @@ func hostile(r *ev.Run, srv *dohmem.Server) {
 				r.Violation("unbounded-queries:mixed-case-alias-loop", fmt.Sprintf("Resolve(%q) with the alias loop %v sent %d queries", loop[0], loop, n), fmt.Sprint(loop))
 			}
 			r.Eval("alias-loop-mixed-case:"+fmt.Sprint(loop), oc)
+		}
+		// answers that consist of a CNAME and nothing else (the target's data is not in the answer), the targets leading back to
+		// where they came from ACROSS responses - a -> b in one answer, b -> a in the next - or onwards for ever (each name an
+		// alias of a fresh one): Resolve returns, and the number of queries is bounded
+		for _, kind := range []string{"self", "two-cycle", "three-cycle", "endless-chain"} {
+			srv.Reset()
+			nextOf := func(name string) string {
+				switch kind {
+				case "self":
+					return name
+				case "two-cycle":
+					return map[string]string{"c1.example": "c2.example", "c2.example": "c1.example"}[name]
+				case "three-cycle":
+					return map[string]string{"c1.example": "c2.example", "c2.example": "c3.example", "c3.example": "c1.example"}[name]
+				}
+				var n int
+				fmt.Sscanf(name, "c%d.example", &n)
+				return fmt.Sprintf("c%d.example", n+1)
+			}
+			srv.Zone = func(name string, t uint16) dohmem.Answer {
+				base := name
+				if i := strings.Index(name, "._https."); i >= 0 {
+					base = name[i+8:]
+				}
+				if to := nextOf(base); to != "" && strings.HasPrefix(base, "c") {
+					return dohmem.Answer{Records: []dnsref.RR{{Name: name, Type: 5, Class: 1, TTL: 60, Fields: []dnsref.Field{dnsref.N(to)}}}}
+				}
+				return dohmem.Answer{}
+			}
+			res, _ := ech.NewResolver("https://doh.test/dns-query")
+			done := make(chan error, 1)
+			ctx, cancel := context.WithCancel(context.Background())
+			go func() {
+				defer func() {
+					if p := recover(); p != nil {
+						done <- fmt.Errorf("panic: %v", p)
+					}
+				}()
+				_, err := res.Resolve(ctx, "c1.example")
+				done <- err
+			}()
+			oc := "dangling CNAME " + kind + " -> returns"
+			select {
+			case err := <-done:
+				if err != nil && strings.HasPrefix(err.Error(), "panic:") {
+					r.Violation("panic:dangling-cname", fmt.Sprintf("Resolve(\"c1.example\") with CNAME-only answers (%s): %v", kind, err), kind)
+				}
+			case <-time.After(20 * time.Second):
+				// (generous: a lookup through the in-memory responder takes microseconds)
+				cancel()
+				oc = "dangling CNAME " + kind + " -> NEVER RETURNS"
+				r.Violation("resolve-never-returns:dangling-cname", fmt.Sprintf("Resolve(\"c1.example\") with CNAME-only answers (%s) had not returned after 20 s and %d queries", kind, len(srv.Queries())), kind)
+			}
+			cancel()
+			if n := len(srv.Queries()); n > 40 {
+				r.Violation("unbounded-queries:dangling-cname", fmt.Sprintf("Resolve(\"c1.example\") with CNAME-only answers (%s) sent %d queries", kind, n), kind)
+			}
+			r.Eval("dangling-cname:"+kind, oc)
 		}
 		// ports that are no port numbers: nothing may be asked about the port they would be if cut to 16 bits
 		for _, in := range []string{"o.example:73979", "o.example:+8443", "https://o.example:73979/", "o.example:65536", "o.example:8443x"} {
